@@ -113,7 +113,14 @@ def run_supervisor(cfg, responder):
     n = None if cfg["n"] == NO_N else cfg["n"]
     budget = None if cfg["budget"] == NO_BUDGET else cfg["budget"]
     saved = (process.os, process.sys, process.multiprocessing, process._task_id)
-    process.os = _Delegate(_real_os, fork=fork, wait=wait)
+    def waitpid(pid, options=0):          # os.waitpid(-1, 0) is os.wait()
+        if pid != -1 or options != 0:
+            raise NotImplementedError("harness: waitpid(%r, %r) is not scripted for fork_processes" % (pid, options))
+        return wait()
+
+    cpus = lambda *a: cfg["cpus"]         # noqa: E731  every way of asking for the cpu count gives cfg.cpus
+    process.os = _Delegate(_real_os, fork=fork, wait=wait, waitpid=waitpid, _exit=exit_, cpu_count=cpus,
+                           process_cpu_count=cpus, sched_getaffinity=lambda *a: set(range(cfg["cpus"])))
     process.sys = _Delegate(_real_sys, exit=exit_)
     process.multiprocessing = _Delegate(__import__("multiprocessing"), cpu_count=lambda: cfg["cpus"])
     process._task_id = None
